@@ -40,7 +40,10 @@ try:
         print(mid, 'caught' if caught else 'MISSED', [v[0] for v in viol][:4], flush=True)
 finally:
     subprocess.run(['git', '-C', '/repo', 'worktree', 'remove', '--force', wt], stdout=subprocess.DEVNULL, stderr=subprocess.DEVNULL)
+# RESULTS.md is rebuilt from every meta.json, so partial runs keep the other rows
 with open('/verif/seeded/RESULTS.md', 'w') as f:
     f.write('| seeded change | property | outcome | obligations that fail |\n|---|---|---|---|\n')
-    for mid, prop, res, viol in rows:
-        f.write('| %s | %s | %s | %s |\n' % (mid, prop, res, '; '.join(v[0] for v in viol[:4])))
+    for mp in sorted(glob.glob('/verif/seeded/*/meta.json')):
+        m = json.load(open(mp))
+        f.write('| %s | %s | %s | %s |\n' % (m.get('id'), m.get('breaks_property'), m.get('check_outcome'),
+                '; '.join(x.split(' -- ')[0] for x in (m.get('failing_obligations') or [])[:4])))
